@@ -85,7 +85,7 @@ def {name}({_sig(sh["params"])}) -> bool:
 ''')
         nsym = sum(1 for p in sh["params"])
         heavy = "bitlen" in sh.get("tags", []) or "w15" in sh["shape"] or "_15" in sh["shape"]
-        obs.append({"name": name, "module_path": path, "function": name, "cap": 600 if heavy else 240, "opaque": True,
+        obs.append({"name": name, "module_path": path, "function": name, "cap": 1200 if sh["shape"].endswith("_both") else (600 if heavy else 240), "opaque": True,
                     "meta": {"class": cls, "shape": sh["shape"], "symbolic_params": [p[0] for p in sh["params"]]}})
         # out-of-range: one obligation per integer field, on the first shape of each (class, field)
         for n, t, lo, hi in sh["params"]:
